@@ -102,6 +102,10 @@ pub fn run_program(b: &Value, id: u64) -> RunOut {
                 let op = o["op"].as_str().unwrap();
                 let k = o.get("k").and_then(|x| x.as_u64()).unwrap_or(0) as u32;
                 let opid = (t + 1) * 100 + ip + 1;
+                let tick = {
+                    let c = clock2.clone();
+                    move || c.now().duration_since(base).as_secs() as i64
+                };
                 let inv = json!({"ev": "Inv", "t": t + 1, "id": opid, "op": op, "k": k,
                     "v": o.get("v").and_then(|x| x.as_u64()).unwrap_or(0)});
                 // the operation starts when its first step is granted: log the invocation
@@ -110,10 +114,13 @@ pub fn run_program(b: &Value, id: u64) -> RunOut {
                 let log3 = log2.clone();
                 let sh4 = sh2.clone();
                 let inv2 = inv.clone();
+                let clock3 = clock2.clone();
                 mini_moka::verif::set_point_handler(Some(Arc::new(move |tag| {
                     park(&sh4, t, tag);
                     if first.swap(false, std::sync::atomic::Ordering::SeqCst) {
-                        log3.lock().unwrap().push(inv2.clone());
+                        let mut e = inv2.clone();
+                        e["now"] = json!(clock3.now().duration_since(base).as_secs() as i64);
+                        log3.lock().unwrap().push(e);
                     }
                 })));
                 let mut r: i64 = -1;
@@ -133,7 +140,9 @@ pub fn run_program(b: &Value, id: u64) -> RunOut {
                     "Advance" => {
                         // a harness-level step
                         park(&sh2, t, "adv");
-                        log2.lock().unwrap().push(inv.clone());
+                        let mut e = inv.clone();
+                        e["now"] = json!(tick());
+                        log2.lock().unwrap().push(e);
                         clock2.advance(Duration::from_secs(o["d"].as_u64().unwrap()));
                     }
                     other => panic!("harness: unknown op {}", other),
@@ -145,7 +154,7 @@ pub fn run_program(b: &Value, id: u64) -> RunOut {
                         .push(json!({"ev": "Panic", "t": t + 1, "id": opid, "msg": crate::last_panic(), "during": op}));
                     break;
                 }
-                log2.lock().unwrap().push(json!({"ev": "Ret", "t": t + 1, "id": opid, "r": r}));
+                log2.lock().unwrap().push(json!({"ev": "Ret", "t": t + 1, "id": opid, "r": r, "now": tick()}));
             }
             mini_moka::verif::set_point_handler(None);
             let (m, cv) = &*sh2;
